@@ -16,6 +16,11 @@ def adapters_in(src):
             name = x[1].split("::")[-1]
             if name in TRUNCATING_ADAPTERS and ("Iterator" in x[1] or "iter::" in x[1] or "Iterator" in (x[4] or "")):
                 out.append(name)
+            # zipping with a bounded range stops after `end - start` items: the other side may be cut short
+            if name == "zip" and ("Iterator" in x[1] or "Iterator" in (x[4] or "")) and len(x[2]) == 2:
+                for a in x[2]:
+                    if isinstance(a, tuple) and a[0] == "agg" and a[1].endswith("ops::Range") and len(a[2]) == 2:
+                        out.append("zip(bounded range)")
     return out
 
 
